@@ -48,6 +48,22 @@ int save_svalue_depth = 0;
 int save_max_depth;
 int *save_svalue_sizes = 0;
 
+/*
+ * Text of a float in a save file: "%g", followed by ".0" when that text is made of digits only
+ * (e.g. 100000.0 prints as "100000"), because restore recognises a float by its '.' or 'e' and
+ * would otherwise bring the value back as an integer.  Returns the length written.
+ */
+static size_t save_real_text (char *buf, double d) {
+  size_t n = (size_t) sprintf (buf, "%g", d);
+
+  if (strspn (buf, "-0123456789") == n)
+    {
+      strcpy (buf + n, ".0");
+      n += 2;
+    }
+  return n;
+}
+
 /**
  * Calculate the size needed to save an svalue_t.
  */
@@ -140,8 +156,7 @@ size_t svalue_save_size (const svalue_t * v) {
     case T_REAL:
       {
         char buf[256];
-        sprintf (buf, "%g", v->u.real);
-        return strlen (buf) + 1; /* 1 for comma/colon */
+        return save_real_text (buf, v->u.real) + 1; /* 1 for comma/colon */
       }
 
     default:
@@ -243,8 +258,7 @@ void save_svalue (svalue_t * v, char **buf) {
 
     case T_REAL:
       {
-        sprintf (*buf, "%g", v->u.real);
-        (*buf) += strlen (*buf);
+        (*buf) += save_real_text (*buf, v->u.real);
         return;
       }
 
